@@ -408,6 +408,24 @@ static void fam_c01_spanchurn(G& g, Plan& p) {
 static void fam_c01_huge(G& g, Plan& p) {
   p.nslots = 40;
   p.progs.resize(1); Program& P = p.progs[0];
+  if (g.chance(0.15)) {
+    // a big arena (its bitmaps have more than one 64-bit field): single-block segments fill it up to a field boundary, multi-block segments straddle
+    // the boundary with live neighbours on both sides, are freed and their place is taken again
+    p.nslots = 120; set_env(p, "ARENA_RESERVE", g.pick<std::string>({"4GiB", "3GiB", "4GiB"}));
+    const int pre = 56 + (int)g.below(8);
+    for (int i = 0; i < pre; i++) { Op o = mk(OP_malloc, i, 17 * MiB + g.below(12 * MiB)); o.flags = OPF_NO_FILL; P.ops.push_back(o); }
+    int rounds = 2 + (int)g.below(4);
+    for (int r = 0; r < rounds; r++) {
+      int hs = 70 + r; size_t hb = 2 + g.below(9);
+      { Op o = mk(OP_malloc, hs, hb * 32 * MiB - g.below(20 * MiB)); o.flags = OPF_NO_FILL; P.ops.push_back(o); }
+      for (int i = 0; i < 2; i++) P.ops.push_back(mk(OP_malloc, 80 + 2 * r + i, 17 * MiB + g.below(12 * MiB)));                  // live neighbours behind it
+      if (g.chance(0.5)) P.ops.push_back(mk(OP_free, (int)g.below((uint64_t)pre)));
+      P.ops.push_back(mk(OP_free, hs));
+      for (int i = 0; i < (int)hb + 2; i++) P.ops.push_back(mk(OP_malloc, 90 + (int)g.below(28), 17 * MiB + g.below(12 * MiB)));     // whatever the free gave back is handed out again
+      P.ops.push_back(mk(OP_verify_all));
+    }
+    return;
+  }
   int nops = 30 + (int)g.below(80); int nh = 2;
   for (int i = 0; i < nops; i++) {
     int slot = (int)g.below((uint64_t)p.nslots);
@@ -648,6 +666,10 @@ static void fam_c08_prodcons(G& g, Plan& p) {
   int ncls = 1 + (int)g.below(2); std::vector<size_t> cls;
   for (int i = 0; i < ncls; i++) { auto bs = bin_sizes(); size_t b = big ? bs[36 + g.below(8)] : bs[g.below(44)]; cls.push_back((g.padded && b > 8) ? b - 8 : b); }
   int R = big ? g.pick({20000, 60000}) : g.pick({500, 2000, 6000});
+  // large only: a heap that serves nothing but blocks with a page of their own (above 128 KiB): every remote free goes through the owner's
+  // delayed list, which has to be drained by the allocation path of exactly such requests
+  const bool large_only = g.chance(0.15);
+  if (large_only) { cls.clear(); cls.push_back(130 * KiB + g.below(400 * KiB)); R = g.pick({500, 1200}); if (L > 40) L = 8 + (int)g.below(32); }
   int ncons = 1 + (int)g.below(2);
   p.nslots = L; p.progs.resize((size_t)(1 + ncons));
   p.sample_verify = false;
@@ -732,8 +754,10 @@ static void fam_c09_exit(G& g, Plan& p) {
     if (t > 0) { P.explicit_done = g.chance(0.5); P.reuse_id = g.chance(0.5); }
     if (two_sub && t > 0 && (t % 2) == 1) P.ops.push_back(mk(OP_subproc_add, 0));
     int nops = 20 + (int)g.below(100);
+    const bool os_seg = (t > 0) && g.chance(0.25);      // this thread also leaves a segment that is not in any arena (alignment above 16 MiB): both kinds of abandoned memory at once
     for (int i = 0; i < nops; i++) {
       int slot = (int)g.below((uint64_t)p.nslots); int k = (int)g.below(100);
+      if (os_seg && i == nops / 3) { P.ops.push_back(mk(OP_malloc_aligned, slot, 1000 + g.below(200000), (uint64_t)32 * MiB)); continue; }
       if (k < 38) P.ops.push_back(mk(OP_free, slot));
       else if (k < 42) P.ops.push_back(mk(OP_collect, -1, g.below(2)));
       else if (k < 44) P.ops.push_back(mk(OP_realloc, slot, gen_size(g, mix & ~SM_HUGE)));
